@@ -103,10 +103,14 @@ func genC16(t *rapid.T) *C16Case {
 				m.Fields[1] = rig.F(rig.TagHeartBtInt, "3O")
 			}
 		default:
-			if rapid.Bool().Draw(t, "hdrCounter") {
+			switch rapid.IntRange(0, 2).Draw(t, "whichField") {
+			case 0:
 				// the count field of the header's repeating group (NoHops)
 				m.PreSeq = append(m.PreSeq, rig.F("627", rapid.SampledFrom([]string{"x", "1x", "two"}).Draw(t, "badHops")))
-			} else {
+			case 1:
+				// a numeric field of the trailer (SignatureLength), right before the CheckSum
+				m.Fields = append(m.Fields, rig.F("93", rapid.SampledFrom([]string{"abc", "3x", "-"}).Draw(t, "badSigLen")))
+			default:
 				m.PreSeq = append(m.PreSeq, rig.F("369", "n/a"))
 			}
 		}
@@ -199,7 +203,7 @@ func checkC16(c *C16Case, rec *evid.Rec) (vs []pbt.Violation) {
 				ok := len(fresh) == 1 && fresh[0].Type == rig.THeartbeat
 				if ok {
 					id, _ := fresh[0].Get(rig.TagTestReqID)
-					ok = id == "after"
+					ok = id == st.In.Fields[0].Val // the TestReqID of this step
 				}
 				if !ok {
 					vs = append(vs, pbt.V(key("followup-testrequest"), "after the invalid %s (%s) a valid TestRequest is not answered normally:%s", c.Type, c.Damage, showOut(res)))
